@@ -71,3 +71,7 @@ CLAIMS["C01"] = dict(level="model_checking",
     technique="exhaustive enumeration of all mutator sequences up to depth 2 (3) between BuildHandshakeState and Handshake x clients x {plain, HRR} servers on the real client, comparing wire bytes with Hello.Raw at first write and after the handshake",
     text="Every sequence of documented mutators up to the depth bound is applied to every non-Golang client; the first ClientHello on the wire must equal Hello.Raw read at the first write, the last edit of each field must be visible to the strict parser, and after Handshake Hello.Raw must equal the last ClientHello sent (the second after an HRR).",
     note="Mutator alphabet of 10 operations; states = (client, hello shape after the edits); the real code is executed for every sequence (no separate model).")
+CLAIMS["C14"] = dict(level="exploration",
+    technique="exhaustive enumeration of the full product of verification knobs x certificate kinds x versions x {fresh, two resumption histories} x ECH {accepted, rejected} against a reference verification predicate",
+    text="Every combination of client, version, certificate kind, ServerName, InsecureServerNameToVerify, InsecureSkipTimeVerify, InsecureSkipVerify and connection history (fresh; resumed after an unverified first connection; resumed after a leniently verified one) is run and its success compared with a reference predicate; failures must be CertificateVerificationError; ECH accepted/rejected paths are checked for the verification name and the error type.",
+    note="Reference predicate from the Config documentation; fixture PKI and fixed clock; one known finding (not-yet-valid leaf resumed after a lenient first connection).")
